@@ -104,7 +104,11 @@ def encode_to_dict(obj: Any, refs: Dict[int, Any]):
         elif isinstance(obj, colang_ast_module.SpecType):
             value = {"__type": "SpecType", "value": obj.value}
         elif isinstance(obj, Action):
-            value = {"__type": "Action", "value": obj.to_dict()}
+            # The action data can contain arbitrary values (e.g. start arguments, return value)
+            value = {
+                "__type": "Action",
+                "value": {k: encode_to_dict(v, refs) for k, v in obj.to_dict().items()},
+            }
         elif isinstance(obj, datetime):
             value = {"__type": "datetime", "value": obj.isoformat()}
         elif isinstance(obj, Enum):
